@@ -69,7 +69,8 @@ def wrap_unconnected_send(message: bytes, route_path: bytes) -> bytes:
             UINT.encode(msg_len),
             message,
             b"\x00" if msg_len % 2 else b"",
-            route_path,
+            # route path size (words) and the reserved byte are mandatory: no route = an empty route
+            route_path or b"\x00\x00",
         ]
     )
 
